@@ -9,5 +9,7 @@ HARNESSES = [h for h in _load("sg_common").sg_harnesses(("SEL_WR",))]
 HARNESSES += _load("blk_common").ima_harnesses(("SEL_WRITE",))
 
 HARNESSES += _load("blk_common").sds_harnesses(("SEL_HEADER",))
+# ALAC staging layer (K-block contract for the bit-stream library)
+HARNESSES += _load("blk_common").alac_stage_harnesses(("SEL_WRITE",))
 
 META = {"assumptions": ["E-memfile"], "outside": ["block codecs and header determinism: see DESIGN"]}
